@@ -27,6 +27,7 @@ const (
 	CmpNoMatch   // the synthesized farthest-failure error (position + expected list)
 	CmpInvalid   // invalid-encoding errors: set of positions
 	CmpOK        // success/failure only (error-nil vs model)
+	CmpMemoOnce  // under Memoize: no (block id, offset) twice; evaluations <= #exprs x (len+1)
 )
 
 // OptSet is one runtime option variation.
@@ -36,6 +37,9 @@ type OptSet struct {
 	NoRecover    bool
 	File         string
 	MaxExpr      uint64
+	Memo         bool
+	Debug        bool
+	Stats        bool
 }
 
 // MCConfig configures the generic model check.
@@ -141,7 +145,10 @@ func (c *Ctx) mcChunk(cfg *MCConfig, gs []*gast.Grammar, base int, rng *rand.Ran
 					}
 					id := fmt.Sprintf("%s/%d/%d/%d", u.Pkg, ii, oi, ei)
 					mc := &mon.Case{ID: id, Pkg: u.Pkg, Input: in, File: os.File, Entry: en, AllowInvalid: os.AllowInvalid,
-						NoRecover: os.NoRecover, MaxExpr: os.MaxExpr, MaxEvents: 4000}
+						NoRecover: os.NoRecover, MaxExpr: os.MaxExpr, MaxEvents: 4000, Memo: os.Memo, Debug: os.Debug, Stats: os.Stats}
+					if (os.Memo || os.Debug || os.Stats) && u.HasFlag("-optimize-parser") {
+						continue // these options do not exist in optimized parsers
+					}
 					if cfg.DebugEvery > 0 && ii%cfg.DebugEvery == 0 && !u.HasFlag("-optimize-parser") && oi == 0 {
 						mc.Debug = true
 					}
@@ -212,6 +219,14 @@ func (c *Ctx) mcChunk(cfg *MCConfig, gs []*gast.Grammar, base int, rng *rand.Ran
 			c.CovAdd("model_rejects", 1)
 		}
 		c.CovAdd("events_compared", len(m.Trace))
+		if c.Prop == "C14" {
+			c.CovAdd("handler_runs", m.HandlerRuns)
+			c.CovAdd("handler_fallthroughs", m.HandlerFall)
+			c.CovAdd("throws_inside_recovery_expr", m.ThrowInHandler)
+			c.CovAdd("recovery_ops_inside_recovery_expr", m.RecInHandler)
+			c.CovAdd("throws_without_handler", m.ThrowUnhandled)
+			c.CovAdd("sibling_recovery_ops", m.SiblingRec)
+		}
 		c.CovSet("flag_sets", cs.u.FlagID+"|")
 		c.CovSet("option_sets", cs.os.Name)
 		if cfg.StalePS != "" && cfg.Compare&CmpTrace != 0 {
@@ -366,14 +381,41 @@ func compareModel(mask int, cs *mcCase, r *mon.Result, m *ref.Result) []diff {
 	if mask&CmpEnd != 0 && !m.Panicked && r.End != m.End {
 		ds = append(ds, diff{"end", m.End, r.End})
 	}
-	if mask&CmpTrace != 0 {
+	if mask&CmpTrace != 0 && !cs.os.Memo {
 		if d := traceDiff(m.Trace, r.Trace); d != nil {
 			ds = append(ds, *d)
 		}
 	}
 	if mask&CmpErrs != 0 {
-		if d := errsDiff(cs.os.File, m, r); d != nil {
+		if cs.os.Memo && m.NoMatchErr {
+			// the synthesized no-match text is not a code-block error: only its presence is compared
+			if len(r.Errs) != 1 || !strings.HasPrefix(r.Errs[0].Inner, "no match found") {
+				ds = append(ds, diff{"errors", errMsgs(cs.os.File, m), r.ErrStr})
+			}
+		} else if d := errsDiff(cs.os.File, m, r); d != nil {
 			ds = append(ds, *d)
+		}
+	}
+	if mask&CmpMemoOnce != 0 && cs.os.Memo {
+		seen := map[string]bool{}
+		for _, ev := range r.Trace {
+			f := strings.SplitN(ev, "|", 4)
+			if len(f) < 4 {
+				continue
+			}
+			k := f[0] + "|" + f[1] + "|" + f[2]
+			if f[0] != "A" {
+				continue // predicate/state offsets are stale (F02); actions carry the true match start
+			}
+			if seen[k] {
+				ds = append(ds, diff{"memo-once", "each (block, offset) runs at most once under Memoize", "twice: " + ev})
+				break
+			}
+			seen[k] = true
+		}
+		bound := uint64(cs.u.G.NExprs) * uint64(len(cs.in)+1)
+		if r.ExprCnt > bound {
+			ds = append(ds, diff{"memo-bound", fmt.Sprintf("<= %d evaluations (%d expressions x (%d+1))", bound, cs.u.G.NExprs, len(cs.in)), r.ExprCnt})
 		}
 	}
 	if mask&CmpErrTypes != 0 {
